@@ -2,7 +2,7 @@
    decode one input line, evaluate the requested model function and the specification oracle,
    render both.  Output of a case: model lines, then "#SPEC", then oracle lines (or one line
    "EXEMPT <reason>" when the oracle does not apply, e.g. a schema that is not well-formed). *)
-From GT Require Export Sexp Render.
+From GT Require Export Sexp Render Probe.
 From GTS Require Import SpecLin Annot WfSchema SpecValid SpecCollect SpecRules ExtOps.
 Local Open Scope string_scope.
 
@@ -44,6 +44,31 @@ Definition render_collect (s : sdocument) (d : document) (spec : bool) : list st
                              | Some g => render_groups g
                              | None => "OUTOFFUEL"
                              end)) (object_defs s)) (all_selsets d)) ["#ORDERED"].
+
+(* ---- C14: verdict and reporting rules of the default plan ---- *)
+Definition verdict_line (tag : string) (o : outcome) : string :=
+  match o with
+  | Ok errs =>
+      tag ++ " " ++ (match errs with [] => "accept" | _ => "reject" end) ++ " | " ++
+      sep_by "," (map code_of (filter (fun r => existsb (fun e => rule_eqb (e_rule e) r) errs) all_rules))
+  | Panic => tag ++ " PANIC"
+  | OutOfFuel => tag ++ " OUTOFFUEL"
+  end.
+Definition accepts (o : outcome) : option bool :=
+  match o with Ok [] => Some true | Ok _ => Some false | _ => None end.
+
+Definition render_rewrite (s1 : sdocument) (d1 : document) (s2 : sdocument) (d2 : document) (kind : string) : list string :=
+  let o1 := validate s1 d1 default_plan in
+  let o2 := validate s2 d2 default_plan in
+  let a := verdict_line "A" o1 in
+  let b := verdict_line "B" o2 in
+  let rules_relevant := negb (String.eqb kind "wrap-inline" || String.eqb kind "inline-spread") in
+  [a; b;
+   "VERDICT " ++ (match accepts o1, accepts o2 with
+                  | Some x, Some y => if Bool.eqb x y then "same" else "DIFF"
+                  | _, _ => "DIFF" end);
+   "RULES " ++ (if negb rules_relevant then "n/a"
+                else if String.eqb (verdict_line "" o1) (verdict_line "" o2) then "same" else "DIFF")].
 
 Definition run_case (s : sdocument) (op : string) (args : list sexp) : list string :=
   if String.eqb op "trace" then
@@ -111,6 +136,28 @@ Definition run_case (s : sdocument) (op : string) (args : list sexp) : list stri
         | Some d, Some plan =>
             List.app (render_outcome (validate s d plan)) ["HISTORY ok"; "THREADS ok"; "UNCHANGED ok"]
         | _, _ => ["BADINPUT"]
+        end
+    | _ => ["BADINPUT"]
+    end
+  else if String.eqb op "rewrite" then
+    match args with
+    | [d; SL [Atom _; Atom kind]; SL [Atom which; alt]] =>
+        match d_document d with
+        | Some d1 =>
+            if String.eqb which "alt" then
+              match d_document alt with Some d2 => render_rewrite s d1 s d2 kind | None => ["BADINPUT"] end
+            else
+              match d_sdocument alt with Some s2 => render_rewrite s d1 s2 d1 kind | None => ["BADINPUT"] end
+        | None => ["BADINPUT"]
+        end
+    | _ => ["BADINPUT"]
+    end
+  else if String.eqb op "transform" then
+    match args with
+    | [d; SL [Atom _; Atom m; Atom k; Atom sa]] =>
+        match d_document d, parse_N m, parse_N k, parse_N sa with
+        | Some d, Some m, Some k, Some sa => render_transform d m k sa
+        | _, _, _, _ => ["BADINPUT"]
         end
     | _ => ["BADINPUT"]
     end
